@@ -108,6 +108,29 @@ def c17(r):
     r.tlc_validate("LazyTrace", t, ["C17."])
 
 
+def c13(r):
+    import os, shutil, vlib
+    r.tlc_exhaustive("Loops.tla", "Loops.cfg", workers=4)
+    r.tlc_exhaustive("Loops.tla", "Loops_past.cfg", workers=4)
+    for cfg in ("Loops_sleep.cfg", "Loops_send.cfg"):
+        ok, _ = r.tlc_exhaustive("Loops.tla", cfg, workers=4, expect_ok=False)
+        if ok:
+            raise Inconclusive(cfg + " should reproduce a shutdown hang")
+    t = r.drive("world", race=True, name="world", timeout=3000)
+    r.tlc_validate("WorldTrace", t, ["C13."])
+    r.tlc_validate("ProducerTrace", t, ["C01."])
+    r.tlc_validate("SubmitTrace", t, ["C06.", "C07.InclSound", "C07.InclMonotone", "C07.Finalize", "C07.PersistThenReport", "C07.InclBounds"])
+    # data races reported by the race detector on the executed interleavings
+    reports = r.race_reports("world")
+    for i, rep in enumerate(reports):
+        os.makedirs(os.path.join(vlib.VERIF, "replays"), exist_ok=True)
+        path = os.path.join(vlib.VERIF, "replays", "C13-race-%d.txt" % i)
+        open(path, "w").write(rep)
+        r.violations.append({"inv": "C13.DataRace", "run": "race-report-%d" % i, "l": 0, "detail": rep.split("\n")[1][:200] if "\n" in rep else rep[:200],
+                             "trace": t, "monitor": "WorldTrace", "replay_path": path})
+    r.notes.append("race detector reports: %d" % len(reports))
+
+
 def c05(r):
     syncer(r, ["C05.", "C02."], crash=True)
 
@@ -140,7 +163,7 @@ def c08(r):
     submitter(r, ["C08."])
 
 
-PIPELINES = {"C01": c01, "C04": c04, "C02": c02, "C05": c05, "C06": c06, "C07": c07, "C08": c08, "C03": c03, "C09": c09, "C10": c10, "C11": c11, "C17": c17}
+PIPELINES = {"C01": c01, "C04": c04, "C02": c02, "C05": c05, "C06": c06, "C07": c07, "C08": c08, "C03": c03, "C09": c09, "C10": c10, "C11": c11, "C17": c17, "C13": c13}
 ASSUME = {}
 FINISH = {}
 
@@ -149,4 +172,4 @@ def REPLAY_MONITOR(pid, path):
     import os
     import re
     m = re.match(r"%s-([A-Za-z0-9]+)-" % pid, os.path.basename(path))
-    return m.group(1) if m else {"C01": "ProducerTrace", "C04": "ProducerTrace", "C02": "SyncTrace", "C05": "SyncTrace", "C03": "SyncTrace", "C09": "SyncTrace", "C10": "QueueTrace", "C11": "FlowTrace", "C17": "LazyTrace", "C06": "SubmitTrace", "C07": "SubmitTrace", "C08": "SubmitTrace"}[pid]
+    return m.group(1) if m else {"C01": "ProducerTrace", "C04": "ProducerTrace", "C02": "SyncTrace", "C05": "SyncTrace", "C03": "SyncTrace", "C09": "SyncTrace", "C10": "QueueTrace", "C11": "FlowTrace", "C17": "LazyTrace", "C13": "WorldTrace", "C06": "SubmitTrace", "C07": "SubmitTrace", "C08": "SubmitTrace"}[pid]
